@@ -43,12 +43,28 @@ FirstDiff(a, b) == IF \E q \in DOMAIN a : q > Len(b) \/ a[q] # b[q]
                    THEN CHOOSE q \in DOMAIN a : (q > Len(b) \/ a[q] # b[q]) /\ \A r \in 1..(q - 1) : r <= Len(b) /\ a[r] = b[r]
                    ELSE Len(a) + 1
 
+\* the order dfs_pre_order_mut produces today: a work stack of sequence ids, children pushed while their parent is scanned
+\* (the else arm below the then arm), a sequence finished before the next one is popped.  Used as a linear-time fast path
+\* only: any other order that reports the same items is accepted as well (SameBag).
+RECURSIVE PreFrom(_, _), PushedBy(_, _, _), ItemsOf(_, _, _)
+ItemsOf(tr, s, i) == IF i > Len(SeqOf(tr, s)) THEN <<>> ELSE <<Item("instr", -1, SeqOf(tr, s)[i].k, SeqOf(tr, s)[i].ops)>> \o ItemsOf(tr, s, i + 1)
+PushedBy(tr, s, i) ==
+  IF i > Len(SeqOf(tr, s)) THEN <<>>
+  ELSE LET kids == SeqOf(tr, s)[i].kids IN
+       (IF Len(kids) = 2 THEN <<kids[2], kids[1]>> ELSE kids) \o PushedBy(tr, s, i + 1)
+PreFrom(tr, stack) ==
+  IF stack = <<>> THEN <<>>
+  ELSE LET s == stack[Len(stack)] IN
+       <<Item("start", s, "", SeqTy(tr, s))>> \o ItemsOf(tr, s, 1) \o <<Item("end", s, "", <<>>)>>
+       \o PreFrom(tr, SubSeq(stack, 1, Len(stack) - 1) \o PushedBy(tr, s, 1))
+
 Verdict(c) ==
   LET want == RecItems(c.tree, c.tree.entry)  got == NormLog(c) IN
   IF c.flavour = "in_order" THEN
        IF got = want THEN <<"ok">>
        ELSE LET d == FirstDiff(want, got) IN
             <<"in-order-log-differs-from-recursive-walk", d, IF d <= Len(want) THEN want[d] ELSE "nothing", IF d <= Len(got) THEN got[d] ELSE "nothing">>
+  ELSE IF got = PreFrom(c.tree, <<c.tree.entry>>) THEN <<"ok">>
   ELSE IF SameBag(want, got) THEN <<"ok">>
        ELSE LET bad == CHOOSE x \in Ran(want) \cup Ran(got) : CountIn(want, x) # CountIn(got, x) IN
             <<"mutable-traversal-reports-differ", c.flavour, bad, CountIn(want, bad), CountIn(got, bad)>>
